@@ -1,4 +1,4 @@
-PROPS = ["CTV.Props.C16"]
+PROPS = ["CTV.Props.C16", "CTV.Props.C16Tie"]
 HARNESS = [dict(pkg="./scanner/", test="TestVerifC16", race=True, synctest=True, timeout=1500, env={"GORACE": "log_path=/tmp/verif-c16-race"})]
 RULE = ("scans of a scripted scanner.LogClient through the real Fetcher.Run / Scanner.ScanLog under virtual time (testing/synctest) and -race: "
         "tree sizes 0..3200, start/end at and around the boundaries (0, size-1, size, beyond the tree, sub-ranges), batch sizes 1..1000, 1..8 fetchers, "
